@@ -29,7 +29,8 @@ def showOH : Option Nat → String
 def npLt (a b : NodePort) : Bool := a.node < b.node || (a.node == b.node && a.port < b.port)
 
 def renderNode (n : PNode) : String := Id.run do
-  let mut s := s!"n {n.h} {n.id} {if n.sig then 1 else 0} {if n.refs > 0 then 1 else 0} {showOH n.grp} {n.ins.size}"
+  let code := if n.dk ≠ 0 then n.dk + 1 else if n.sig then 1 else 0
+  let mut s := s!"n {n.h} {n.id} {code} {if n.refs > 0 then 1 else 0} {showOH n.grp} {n.ins.size}"
   for d in n.ins do s := s ++ " " ++ showONP d
   s := s ++ s!" {n.outs.size}"
   for (t, cs) in n.outs do
@@ -51,7 +52,7 @@ def render (g : PGraph) : Array String := Id.run do
   for cs in g.clocks do
     if g.calive.getD i false then
       let sorted := (cs.toArray.qsort npLt).toList
-      out := out.push (" ".intercalate (["k", toString i, toString cs.length] ++ sorted.map showNP))
+      out := out.push (" ".intercalate (["k", toString i, showOH (g.cdrv.getD i none), showOH (g.rdrv.getD i none), toString cs.length] ++ sorted.map showNP))
     else
       out := out.push s!"k {i} x"     -- destroyed clock
     i := i + 1
@@ -104,7 +105,7 @@ def parseNode (toks : Array String) : PNode × Cur := Id.run do
   for _ in [0:pNat nClk] do
     let (t, c1) := c.next; c := c1
     clks := clks.push (pOH t)
-  return ({ h := pNat h, id := pNat id, sig := sig == "1", refs := if ref == "1" then 1 else 0, grp := pOH grp,
+  return ({ h := pNat h, id := pNat id, sig := sig == "1", dk := (if pNat sig ≥ 2 then pNat sig - 1 else 0), refs := if ref == "1" then 1 else 0, grp := pOH grp,
             ins := ins, outs := outs, clks := clks }, c)
 
 def parseKind (toks : List String) : NKind :=
@@ -167,6 +168,7 @@ def parseOp (toks : List String) : Option (List Op) :=
   | "newclock" :: _ => some [.createClock]
   | ["clone", h] => some [.cloneNode (pNat h)]
   | ["killclock", c] => some [.destroyClock (pNat c)]
+  | ["setdrv", k, c, h] => some [.setLogicDriver (pNat k) (pNat c) (pNat h)]
   | "copysubnet" :: cc :: nIn :: rest =>
     let ins := (rest.take (pNat nIn)).map pNP
     match rest.drop (pNat nIn) with
@@ -193,9 +195,9 @@ def parseOp (toks : List String) : Option (List Op) :=
 /-- `new K sig nIn nOut nClk (kind width)*` : createNode, then the output types the constructor chose -/
 def applyNew (s : State) (toks : List String) : Res State :=
   match toks with
-  | "new" :: _ :: sig :: nIn :: nOut :: nClk :: types =>
+  | "new" :: kn :: sig :: nIn :: nOut :: nClk :: types =>
     let h := s.size
-    let s1 := createNode s (sig == "1") (pNat nIn) (pNat nOut) (pNat nClk)
+    let s1 := createNode s (sig == "1") (pNat nIn) (pNat nOut) (pNat nClk) (if kn == "K" then 1 else if kn == "Z" then 2 else 0)
     let rec go (s : State) (o : Nat) : List String → Res State
       | k :: w :: t => (setOutputConnectionType s h o ⟨pNat k, pNat w⟩).bind fun s' => go s' (o + 1) t
       | _ => .ok s
@@ -219,6 +221,7 @@ def invReport (s : State) : List String :=
   (if decide (ClockInv s.size s.alive s.numClk s.clk s.nclocks s.clocked) then [] else ["clocks"]) ++
   (if decide (IdInv s.size s.alive s.nid s.nextId) then [] else ["ids"]) ++
   (if decide (CAInv s.size s.alive s.numClk s.clk s.calive) then [] else ["deadclock"]) ++
+  (if decide (DriverInv s.size s.alive s.dk s.numClk s.clk s.nclocks s.calive s.drv) then [] else ["drivers"]) ++
   (if decide (OrderInv s.size s.alive s.order) then [] else ["storage"])
 
 /-- first differing line of two renderings -/
@@ -293,9 +296,12 @@ partial def loop (h : IO.FS.Stream) (d : DS) : IO DS := do
       let (n, _) := parseNode toks.toArray
       loop h { d with g := { d.g with nodes := d.g.nodes.push n }, raw := d.raw.push ln }
     | "g" :: _ :: _ :: rest => loop h { d with g := { d.g with groups := d.g.groups.push (rest.map pH) }, raw := d.raw.push ln }
-    | ["k", _, "x"] => loop h { d with g := { d.g with clocks := d.g.clocks.push [], calive := d.g.calive.push false }, raw := d.raw.push ln }
-    | "k" :: _ :: _ :: rest =>
-      loop h { d with g := { d.g with clocks := d.g.clocks.push (rest.map pNP), calive := d.g.calive.push true }, raw := d.raw.push ln }
+    | ["k", _, "x"] =>
+      loop h { d with g := { d.g with clocks := d.g.clocks.push [], calive := d.g.calive.push false, cdrv := d.g.cdrv.push none,
+                                       rdrv := d.g.rdrv.push none }, raw := d.raw.push ln }
+    | "k" :: _ :: cd :: rd :: _ :: rest =>
+      loop h { d with g := { d.g with clocks := d.g.clocks.push (rest.map pNP), calive := d.g.calive.push true, cdrv := d.g.cdrv.push (pOH cd),
+                                       rdrv := d.g.rdrv.push (pOH rd) }, raw := d.raw.push ln }
     | "t" :: hh :: rest => loop h { d with kinds := d.kinds.push (pNat hh, rest.headD "?", parseKind rest) }
     | _ =>
       IO.println s!"DIFF case={d.caseId} unparsed dump line [{ln}]"
